@@ -572,14 +572,29 @@ class atom(boolean.AndRestriction):
         # other forces it off we do not intersect. If only one of us
         # cares about a flag it is irrelevant.
 
-        # Skip the (very common) case of one of us not having use deps:
-        if self.use and other.use:
-            # Set of flags we do not have in common:
-            flags = set(self.use) ^ set(other.use)
-            for flag in flags:
-                # If this is unset and we also have the set version we fail:
-                if flag[0] == "-" and flag[1:] in flags:
-                    return False
+        # For every flag collect the package states ("on", "off", or "missing"
+        # from IUSE) that satisfy all the deps on it, use defaults included:
+        # [x(-)] and [-x(+)] exclude each other just like [x] and [-x] do,
+        # while [x(+)] and [-x] both accept a package lacking the flag.
+        if self.use or other.use:
+            states = {}
+            for token in (self.use or ()) + (other.use or ()):
+                if token[-1] in "?=":
+                    # conditional on the parent's USE; nothing is forced yet.
+                    continue
+                enabled = token[0] != "-"
+                flag = token if enabled else token[1:]
+                default = None
+                if flag[-1] == ")":
+                    default = flag[-2] == "+"
+                    flag = flag[:-3]
+                if enabled:
+                    allowed = {"on", "missing"} if default else {"on"}
+                else:
+                    allowed = {"off"} if default else {"off", "missing"}
+                states[flag] = states.get(flag, allowed) & allowed
+            if not all(states.values()):
+                return False
 
         # Remaining thing to check is version restrictions. Get the
         # ones we can check without actual version comparisons out of
